@@ -9,5 +9,5 @@ CONSTANTS
   TimingPool <- TimingsA
   Seed = 1
   NRand = 6000
-INVARIANT Emit
+INVARIANTS RefinesR Emit
 CHECK_DEADLOCK FALSE
